@@ -48,24 +48,6 @@ fn tzif_v1_0_1() {
     }
 }
 
-/// two transitions, two types: 44 + 8 + 2 + 12 + 4 = 70 bytes
-#[kani::proof]
-#[kani::unwind(26)]
-fn tzif_v1_2_2() {
-    let bytes = v1_file::<70>(2, 2);
-    match TimeZone::from_tzif(&bytes) {
-        Ok(tz) => {
-            assert!(tz.validate().is_ok());
-            assert!(tz.transitions.len() == 2 && tz.local_time_types.len() == 2);
-            assert!(tz.transitions[1].unix_leap_time == i32::from_be_bytes([bytes[48], bytes[49], bytes[50], bytes[51]]) as i64);
-            assert!(tz.transitions[0].local_time_type_index == bytes[52] as usize && tz.transitions[1].local_time_type_index == bytes[53] as usize);
-            assert!(tz.local_time_types[1].utoff == i32::from_be_bytes([bytes[60], bytes[61], bytes[62], bytes[63]]));
-            assert!(bytes[52] < 2 && bytes[53] < 2);
-        }
-        Err(_) => assert!(bytes[52] >= 2 || bytes[53] >= 2),
-    }
-}
-
 /// one transition and no type: must be refused (the lookup would index an empty table)
 #[kani::proof]
 #[kani::unwind(26)]
@@ -74,116 +56,3 @@ fn tzif_v1_1_0() {
     assert!(TimeZone::from_tzif(&bytes).is_err());
 }
 
-/// truncated file: any proper prefix of a 1/1 v1 file is refused, never a panic
-#[kani::proof]
-#[kani::unwind(26)]
-fn tzif_v1_truncated() {
-    let bytes = v1_file::<59>(1, 1);
-    let len: usize = kani::any();
-    kani::assume(len < 59);
-    assert!(TimeZone::from_tzif(&bytes[..len]).is_err());
-}
-
-/// version 2/3: empty v1 block, second header with one 64-bit transition and one type, and an arbitrary footer of up to
-/// 8 bytes. The footer parser is replaced by a stub returning ANY result (its own panic-freedom for every input is the
-/// Verus contract of TransitionRule::from_tz_string); what is decided here is the 64-bit table decoding and that
-/// whatever rule the footer parser returns goes through validate().
-use super::super::transition_rule::{AlternateLocalTimeType, RuleDay, TransitionRule};
-use super::super::errors::TimeZoneError;
-use super::LocalTimeType;
-fn any_rule_day() -> RuleDay {
-    let k: u8 = kani::any();
-    if k == 0 {
-        RuleDay::JulianDayWithoutLeap(kani::any())
-    } else if k == 1 {
-        RuleDay::JulianDayWithLeap(kani::any())
-    } else {
-        RuleDay::MonthWeekDay(kani::any(), kani::any(), kani::any())
-    }
-}
-fn stub_from_tz_string(_footer: &[u8], _ext: bool) -> Result<Option<TransitionRule>, TimeZoneError> {
-    let k: u8 = kani::any();
-    if k == 0 {
-        Err(TimeZoneError::InvalidTzFile("stub"))
-    } else if k == 1 {
-        Ok(None)
-    } else if k == 2 {
-        Ok(Some(TransitionRule::Fixed(LocalTimeType::new(kani::any(), kani::any()))))
-    } else {
-        Ok(Some(TransitionRule::Alternate(AlternateLocalTimeType::new(
-            LocalTimeType::new(kani::any(), false),
-            any_rule_day(),
-            kani::any(),
-            LocalTimeType::new(kani::any(), true),
-            any_rule_day(),
-            kani::any(),
-        ))))
-    }
-}
-fn v2_file(ver: u8, ver2: u8) -> [u8; 107] {
-    let mut b: [u8; 107] = kani::any();
-    let mut k = 0;
-    while k < 2 {
-        let o = k * 44;
-        b[o] = b'T'; b[o + 1] = b'Z'; b[o + 2] = b'i'; b[o + 3] = b'f'; b[o + 4] = if k == 0 { ver } else { ver2 };
-        let mut i = o + 20;
-        while i < o + 44 { b[i] = 0; i += 1; }
-        k += 1;
-    }
-    // second header: 1 transition, 1 type, 4 designation bytes
-    b[44 + 35] = 1; b[44 + 39] = 1; b[44 + 43] = 4;
-    b
-}
-/// both headers carry the same version (2 or 3): 64-bit times
-#[kani::proof]
-#[kani::unwind(50)]
-#[kani::stub(TransitionRule::from_tz_string, stub_from_tz_string)]
-fn tzif_v2_1_1() {
-    let ver: u8 = if kani::any() { b'2' } else { b'3' };
-    let bytes = v2_file(ver, ver);
-    match TimeZone::from_tzif(&bytes) {
-        Ok(tz) => {
-            assert!(tz.validate().is_ok());
-            assert!(tz.transitions.len() == 1 && tz.local_time_types.len() == 1);
-            assert!(tz.transitions[0].unix_leap_time == i64::from_be_bytes([bytes[88], bytes[89], bytes[90], bytes[91], bytes[92], bytes[93], bytes[94], bytes[95]]));
-            assert!(tz.transitions[0].local_time_type_index == bytes[96] as usize && bytes[96] == 0);
-            assert!(tz.local_time_types[0].utoff == i32::from_be_bytes([bytes[97], bytes[98], bytes[99], bytes[100]]));
-        }
-        Err(_) => {}
-    }
-}
-/// the second header may carry any of the three versions, whatever the first says: never a panic
-#[kani::proof]
-#[kani::unwind(50)]
-#[kani::stub(TransitionRule::from_tz_string, stub_from_tz_string)]
-fn tzif_v2_mixed_versions() {
-    let ver: u8 = if kani::any() { b'2' } else { b'3' };
-    let k: u8 = kani::any();
-    let ver2: u8 = if k == 0 { 0 } else if k == 1 { b'2' } else { b'3' };
-    let bytes = v2_file(ver, ver2);
-    if let Ok(tz) = TimeZone::from_tzif(&bytes) {
-        assert!(tz.validate().is_ok());
-        assert!(tz.transitions.len() == 1 && tz.local_time_types.len() == 1);
-    }
-}
-fn stub_small(_footer: &[u8], _ext: bool) -> Result<Option<TransitionRule>, TimeZoneError> {
-    if kani::any() { Ok(None) } else { Err(TimeZoneError::InvalidTzFile("stub")) }
-}
-#[kani::proof]
-#[kani::unwind(50)]
-#[kani::stub(TransitionRule::from_tz_string, stub_from_tz_string)]
-fn tzif_v2_try_a() {
-    let bytes = v2_file(b'2', b'2');
-    if let Ok(tz) = TimeZone::from_tzif(&bytes) {
-        assert!(tz.transitions.len() == 1 && tz.local_time_types.len() == 1);
-    }
-}
-#[kani::proof]
-#[kani::unwind(50)]
-#[kani::stub(TransitionRule::from_tz_string, stub_small)]
-fn tzif_v2_try_b() {
-    let bytes = v2_file(b'2', b'2');
-    if let Ok(tz) = TimeZone::from_tzif(&bytes) {
-        assert!(tz.transitions.len() == 1 && tz.local_time_types.len() == 1);
-    }
-}
